@@ -163,7 +163,7 @@ theorem qpGo_run (buf : List Byte) (off chunk llen : Nat) (sb : List Byte) (st :
     refine ⟨st', e1, ?_⟩
     have hnil : buf.drop (off + chunk + 1) = [] := drop_of_none hnone
     rw [hnil] at e2 ⊢
-    apply QpRun.wsEnd c llen _ _ hws
+    apply QpRun.wsEnd c llen _ _ (Nat.le_of_not_gt hsoft) hws
     simpa [List.append_assoc] using e2
   case case7 off chunk llen sb st c _ hcr hlf hsoft hdot hws d hd hdd ih2 ih1 =>
     have hdlen := (List.getElem?_eq_some_iff.mp hd).1
@@ -178,13 +178,13 @@ theorem qpGo_run (buf : List Byte) (off chunk llen : Nat) (sb : List Byte) (st :
         obtain ⟨st', e1, e2⟩ := ih2 (sb ++ ((buf.drop off).take chunk ++ wsEnc c ++ [CR, LF])) (by omega) (by simp [length_wsEnc']; omega) (by simp [length_wsEnc']; omega)
         refine ⟨st', e1, ?_⟩
         rw [show off + chunk + 1 + 1 = off + chunk + 2 by omega, drop_of_get hl2]
-        apply QpRun.wsCrLf c _ llen _ _ hws
+        apply QpRun.wsCrLf c _ llen _ _ (Nat.le_of_not_gt hsoft) hws
         simpa [List.append_assoc] using e2
       · rename_i hl2
         obtain ⟨st', e1, e2⟩ := ih1 (sb ++ ((buf.drop off).take chunk ++ wsEnc c ++ [CR, LF])) (by omega) (by simp [length_wsEnc']; omega) (by simp [length_wsEnc']; omega)
         refine ⟨st', e1, ?_⟩
         rw [show off + chunk + 1 + 1 = off + chunk + 2 by omega]
-        apply QpRun.wsCr c _ llen _ _ hws
+        apply QpRun.wsCr c _ llen _ _ (Nat.le_of_not_gt hsoft) hws
         · rw [List.head?_drop]; exact hl2
         · simpa [List.append_assoc] using e2
     · rename_i hdcr
@@ -193,7 +193,7 @@ theorem qpGo_run (buf : List Byte) (off chunk llen : Nat) (sb : List Byte) (st :
       obtain ⟨st', e1, e2⟩ := ih1 (sb ++ ((buf.drop off).take chunk ++ wsEnc c ++ [CR, LF])) (by omega) (by simp [length_wsEnc']; omega) (by simp [length_wsEnc']; omega)
       refine ⟨st', e1, ?_⟩
       rw [show off + chunk + 1 + 1 = off + chunk + 2 by omega]
-      apply QpRun.wsLf c _ llen _ _ hws
+      apply QpRun.wsLf c _ llen _ _ (Nat.le_of_not_gt hsoft) hws
       simpa [List.append_assoc] using e2
   case case8 off chunk llen sb st c _ hcr hlf hsoft hdot hws d hd hdd ih =>
     have hdlen := (List.getElem?_eq_some_iff.mp hd).1
@@ -201,19 +201,19 @@ theorem qpGo_run (buf : List Byte) (off chunk llen : Nat) (sb : List Byte) (st :
     refine ⟨st', e1, ?_⟩
     rw [drop_of_get hd]
     simp only [not_or] at hdd
-    apply QpRun.ws c d _ llen _ _ hws hdd.1 hdd.2
+    apply QpRun.ws c d _ llen _ _ (Nat.le_of_not_gt hsoft) hws hdd.1 hdd.2
     rw [take_succ_of_get hc, show off + (chunk + 1) = off + chunk + 1 by omega, drop_of_get hd] at e2
     simpa [List.append_assoc] using e2
   case case9 off chunk llen sb st c _ hcr hlf hsoft hdot hws henc ih =>
     rw [cpy_ok (by omega), bind_ok, push_ok (by simp [qpEnc]; omega), bind_ok]
     obtain ⟨st', e1, e2⟩ := ih (sb ++ ((buf.drop off).take chunk ++ qpEnc c)) (by omega) (by simp [qpEnc]; omega) (by simp [qpEnc]; omega)
     refine ⟨st', e1, ?_⟩
-    apply QpRun.enc c _ llen _ _ hcr hlf hws henc
+    apply QpRun.enc c _ llen _ _ (Nat.le_of_not_gt hsoft) hcr hlf hws henc
     simpa [List.append_assoc] using e2
   case case10 off chunk llen sb st c _ hcr hlf hsoft hdot hws henc ih =>
     obtain ⟨st', e1, e2⟩ := ih (by omega) (by omega) (by omega)
     refine ⟨st', e1, ?_⟩
-    apply QpRun.plain c _ llen _ _ hcr hlf hws henc hdot
+    apply QpRun.plain c _ llen _ _ (Nat.le_of_not_gt hsoft) hcr hlf hws henc hdot
     rw [take_succ_of_get hc, show off + (chunk + 1) = off + chunk + 1 by omega] at e2
     simpa [List.append_assoc] using e2
 
